@@ -56,6 +56,9 @@ class OptAlias(Alias):
 def check(model, R, tier):
     from sa.rules_modtree import check_optimizer_ctor
     check_optimizer_ctor(model, R, 'C08')
+    from sa import rules_hygiene as _H
+    _H.check_signature_order(model, R, 'C08', [OMOD + '.SGD.__init__', OMOD + '.Adam.__init__', OMOD + '.AdamW.__init__'], synonyms={'params': 'parameters'},
+                             siblings=[(OMOD + '.Adam.__init__', OMOD + '.AdamW.__init__')])
     R.rule('C08.OWN', 'every value stored into optimizer state is fresh storage: it may not alias the parameter\'s gradient buffer or data on any path', floor=5)
     R.rule('C08.GRAD-CONST', 'step() performs no in-place effect on storage that may alias a parameter\'s gradient buffer (may-alias abstract interpretation): the gradient is read-only for the optimizer', floor=3)
     R.rule('C08.INPLACE', 'the parameter update is an augmented assignment on p.data inside the loop over self.parameters (no rebinding of the storage)', floor=3)
